@@ -43,6 +43,8 @@ func main() {
 		cmdStress(os.Args[2:])
 	case "acl":
 		cmdACL(os.Args[2:])
+	case "pubsub":
+		cmdPubSub(os.Args[2:])
 	default:
 		die(2, "unknown driver %q", os.Args[1])
 	}
